@@ -197,6 +197,11 @@ def directed() -> List[Dict[str, Any]]:
     cy["files"]["devices/b.yaml"]["imports"] = ["../a.yaml", "../common/c.yaml"]
     cy["files"]["common/c.yaml"]["imports"] = ["../devices/b.yaml", "../a.yaml", "../devices/d.yaml"]
     D.append(cy)
+    # field names that do not start with a letter (C-style `_reserved`, `_pad0`, `__x`): the parser checks only top-level
+    # names, so these are accepted; all four outputs of ONE compile() call must still call the fields the same
+    D.append(one({"a.yaml": {"structs": [["US", [F("_seq", "uint32"), F("_pad0", "uint8", 4), F("value", "double")]]],
+                             "messages": [["UM", 2600, [F("_reserved", "int32"), F("s", "US"), F("__x", "int16", 2), F("x_", "int16", 2)]],
+                                          ["UR", 2601, "US"]]}}, tags=["underscore_fields"]))
     # import diamond, every section in every file
     D.append(one({"a.yaml": {"imports": ["b.yaml", "c.yaml"], "constants": [["NA", "ND + 1", 5]],
                              "messages": [["MA", 2000, [F("b", "SB"), F("c", "SC_"), F("arr", "uint16", "NA", 5)]]]},
@@ -400,7 +405,11 @@ def rand_closure(rng, p_f3: float = 0.08, p_f4: float = 0.08) -> Dict[str, Any]:
             total += sz + 8
             if d and lv:
                 tags.add("array_of_struct")
-            fields.append([f"f{i}", ty, le, lv])
+            fname = f"f{i}"
+            if rng.random() < 0.08:       # a name that starts with an underscore (legal for the parser)
+                fname = rng.choice(["_f%d", "__r%d", "_%d_x", "_seq%d"]) % i
+                tags.add("underscore_fields")
+            fields.append([fname, ty, le, lv])
             depth = max(depth, d)
         return fields, depth, total
 
